@@ -252,11 +252,24 @@ def _ancestors(ctx, node, f):
 def optional_keys(ctx):
     """Keys that some creator's file-tree leaf literal has and another omits."""
     leaves = []
-    for q in ("torrentfile.torrent:TorrentFileV2._traverse", "torrentfile.torrent:TorrentFileHybrid._traverse", "torrentfile.torrent:TorrentAssembler._traverse"):
-        f = ctx.prog.func(q)
+    # wherever the creators' module writes a leaf `{"": {...}}` - in a traversal, or in a helper the traversals share
+    for f in [x for x in ctx.prog.functions.values() if x.module.name == "torrentfile.torrent"]:
         for d in own_nodes(f.node):
-            if isinstance(d, ast.Dict) and len(d.keys) == 1 and const_str(d.keys[0]) == "" and isinstance(d.values[0], ast.Dict):
-                leaves.append({const_str(k) for k in d.values[0].keys})
+            if isinstance(d, ast.Dict) and len(d.keys) == 1 and const_str(d.keys[0]) == "":
+                v = d.values[0]
+                if isinstance(v, ast.Dict):
+                    leaves.append({const_str(k) for k in v.keys})
+                elif isinstance(v, ast.Name):
+                    # leaf = {"length": size}; if ...: leaf["pieces root"] = root; return {"": leaf}
+                    disp = [n.value for n in own_nodes(f.node) if isinstance(n, ast.Assign) and len(n.targets) == 1 and isinstance(n.targets[0], ast.Name)
+                            and n.targets[0].id == v.id and isinstance(n.value, ast.Dict)]
+                    adds = [const_str(n.targets[0].slice) for n in own_nodes(f.node) if isinstance(n, ast.Assign) and len(n.targets) == 1 and isinstance(n.targets[0], ast.Subscript)
+                            and isinstance(n.targets[0].value, ast.Name) and n.targets[0].value.id == v.id and const_str(n.targets[0].slice) is not None]
+                    for dd in disp:
+                        base = {const_str(k) for k in dd.keys}
+                        leaves.append(base)
+                        if adds:
+                            leaves.append(base | set(adds))
     if not leaves:
         raise AnalysisError("anchor vanished: file-tree leaf literals of the creators")
     allk = set().union(*leaves)
@@ -392,7 +405,7 @@ def index_complete(ctx):
         early = [x for x in own_nodes(fn.node) if isinstance(x, ast.Break)]
         if early:
             ctx.violated("C13.5", fn, "indexing stops early: later directories / entries are not searched", early[0])
-    ctx.floor("index merge loops", 2, n)
+    ctx.floor("index merge loops", 1, n)
 
 
 def index_not_pruned(ctx):
